@@ -394,6 +394,15 @@ def harness(name):
                     stack.append((ch, cp))
             obs["state"] = bad or "consistent"
             obs["new_master_children"] = "not judged"
+            # AFTER the threads: the same requests once more, sequentially, on the same objects. A race that left a corrupted
+            # cache or index behind shows here even when every concurrent answer happened to be right.
+            after = {}
+            for t, o in enumerate(ops):
+                if o.startswith("h_") or o == "generate":
+                    continue
+                st, v = attempt(B[o])
+                after[str(t)] = [st, v if st == "ok" else str(v)[:120]]
+            obs["after"] = after
             return obs
         return bodies, finalize
     return make
@@ -555,6 +564,11 @@ def make_check(name):
                             str(r[1])[:200], str(e)[:200]))
         if x.observation["state"] != "consistent":
             vs.append(V("%s:schedule:%s:state-corrupted" % (P, name), "harness %s: %s" % (name, x.observation["state"])))
+        for t, r in sorted(x.observation.get("after", {}).items()):
+            if r[0] != "ok" or r[1] != exp[int(t)]:
+                vs.append(V("%s:schedule:%s:wrong-result-afterwards" % (P, name), "harness %s: after the threads have finished, request %d repeated on the same objects %s" % (
+                    name, int(t), "raised " + str(r[1]) if r[0] != "ok" else "returns a value that differs from the reference"), str(r[1])[:200], str(exp[int(t)])[:200]))
+                break
         return vs
     return check
 
